@@ -70,6 +70,12 @@ var wrappers = []wrapper{
 	{"not", func(p sqlgen.X) sqlgen.X { return sqlgen.Not(p) }},
 	{"parens", func(p sqlgen.X) sqlgen.X { return sqlgen.Extra(p, 1) }},
 	{"and-parens", func(p sqlgen.X) sqlgen.X { return sqlgen.Bin("AND", sqlgen.Col("c8"), sqlgen.Extra(p, 2)) }},
+	{"deep", func(p sqlgen.X) sqlgen.X {
+		return sqlgen.Bin("AND", sqlgen.Col("c8"), sqlgen.Bin("OR", sqlgen.Col("c7"), sqlgen.Bin("AND", sqlgen.Not(sqlgen.Col("c6")), p)))
+	}},
+	{"deep-left", func(p sqlgen.X) sqlgen.X {
+		return sqlgen.Bin("OR", sqlgen.Bin("AND", sqlgen.Bin("OR", p, sqlgen.Col("c6")), sqlgen.Col("c7")), sqlgen.Col("c8"))
+	}},
 }
 
 type key struct{ pat, sev string }
@@ -203,6 +209,47 @@ func Check() *common.Check {
 					continue
 				}
 				positions = append(positions, pos{h.Name, h.Fill})
+			}
+			// compound hosts: the payload next to sibling clauses, in set operations and in the second statement of a script
+			xp := func(v sqlgen.X) *sqlgen.X { return &v }
+			plain := func(t string) sqlgen.S {
+				return sqlgen.Sel{Items: []sqlgen.SelItem{{X: sqlgen.Col("c7")}}, From: []sqlgen.TableRef{{Name: t}}}.Build()
+			}
+			positions = append(positions,
+				pos{"select.having+where-present", func(x sqlgen.X) sqlgen.S {
+					return sqlgen.Sel{Items: []sqlgen.SelItem{{X: sqlgen.Col("c0")}}, From: []sqlgen.TableRef{{Name: "t0"}}, Where: xp(sqlgen.Bin("=", sqlgen.Col("c1"), sqlgen.Int("2"))),
+						GroupBy: []sqlgen.X{sqlgen.Col("c0")}, Having: xp(x)}.Build()
+				}},
+				pos{"select.where+having-present", func(x sqlgen.X) sqlgen.S {
+					return sqlgen.Sel{Items: []sqlgen.SelItem{{X: sqlgen.Col("c0")}}, From: []sqlgen.TableRef{{Name: "t0"}}, Where: xp(x),
+						GroupBy: []sqlgen.X{sqlgen.Col("c0")}, Having: xp(sqlgen.Bin(">", sqlgen.Func("COUNT", nil, sqlgen.FuncOpts{Star: true}), sqlgen.Int("1"))),
+						OrderBy: []sqlgen.OrderItem{{X: sqlgen.Col("c0")}}, Limit: func() *int { i := 5; return &i }()}.Build()
+				}},
+				pos{"select.where+joins-present", func(x sqlgen.X) sqlgen.S {
+					return sqlgen.Sel{Items: []sqlgen.SelItem{{X: sqlgen.Star()}}, From: []sqlgen.TableRef{{Name: "t0"}},
+						Joins: []sqlgen.Join{{Kw: "LEFT JOIN", Right: sqlgen.TableRef{Name: "t1"}, Using: []string{"c1"}}}, Where: xp(x)}.Build()
+				}},
+				pos{"setop.left.where", func(x sqlgen.X) sqlgen.S {
+					return sqlgen.SetOp(sqlgen.Sel{Items: []sqlgen.SelItem{{X: sqlgen.Col("c0")}}, From: []sqlgen.TableRef{{Name: "t0"}}, Where: xp(x)}.Build(), "UNION", false, plain("t1"))
+				}},
+				pos{"setop.middle.where", func(x sqlgen.X) sqlgen.S {
+					return sqlgen.SetOp(sqlgen.SetOp(plain("t1"), "UNION", true, sqlgen.Sel{Items: []sqlgen.SelItem{{X: sqlgen.Col("c0")}}, From: []sqlgen.TableRef{{Name: "t0"}}, Where: xp(x)}.Build()), "EXCEPT", false, plain("t2"))
+				}},
+				pos{"script.second.where", func(x sqlgen.X) sqlgen.S {
+					a := plain("t1")
+					b := sqlgen.Sel{Items: []sqlgen.SelItem{{X: sqlgen.Col("c0")}}, From: []sqlgen.TableRef{{Name: "t0"}}, Where: xp(x)}.Build()
+					toks := append(append(append([]sqlgen.Tok{}, a.Toks...), sqlgen.Tok{S: ";"}), b.Toks...)
+					return sqlgen.S{Toks: toks, Kind: "script"}
+				}},
+				pos{"script.second.update-where", func(x sqlgen.X) sqlgen.S {
+					a := plain("t1")
+					b := sqlgen.Upd{Table: "t0", Set: []sqlgen.Assign{{Col: "c1", Val: sqlgen.Int("1")}, {Col: "c2", Val: sqlgen.Int("2")}}, Where: xp(x)}.Build()
+					toks := append(append(append([]sqlgen.Tok{}, a.Toks...), sqlgen.Tok{S: ";"}), b.Toks...)
+					return sqlgen.S{Toks: toks, Kind: "script"}
+				}},
+			)
+			for _, n := range []string{"select.having+where-present", "select.where+having-present", "select.where+joins-present", "setop.left.where", "setop.middle.where", "script.second.where", "script.second.update-where"} {
+				condHole[n] = true
 			}
 			if e.Thorough() {
 				// second level: the payload's statement nested inside each statement-valued position
